@@ -165,8 +165,14 @@ class SymRangeIter(_Generic):
             e.vars[st.target.id] = j
             return [z3.And(j.t >= to_z3(self.lo), j.t < to_z3(self.hi))]
 
-        inv = getattr(ctx(), "loop_invariants", {}).get(st.lineno)
-        generic_body(interp, st, env, bind, inv)
+        cx = ctx()
+        lv = cx.__dict__.setdefault("loop_vars", {})
+        lv[j.t.decl().name()] = (self.lo, self.hi, len(cx.pc), len(cx.hyps), cx.counter.n)
+        inv = getattr(cx, "loop_invariants", {}).get(st.lineno)
+        try:
+            generic_body(interp, st, env, bind, inv)
+        finally:
+            lv.pop(j.t.decl().name(), None)
 
 
 class Points(_Generic):
